@@ -36,9 +36,9 @@ PROPS = {
         level='proof',
         trusted_base=TRUSTED_VERUS,
         assumptions=[A4, A8, 'world model: the parent link of every item of the document is a ghost map on the receiver; value.remove_from_parent() is an assumed callee (the old parent forgets the item, its parent link becomes None; if the old parent is the receiver its own list loses the item); XmlAttributeValue::try_from accepts exactly text, character references and entity references; HasParent::ancestor is an assumed read-only callee',
-                     'XmlDocument::insert_by_id / delete_by_id (nested helper fn) and XmlAttribute::delete_by_id are not extracted'],
+                     'XmlDocument::delete_by_id and XmlAttribute::delete_by_id are not extracted (same shape as the element version)'],
         not_decided='the tree invariant over whole edit histories (first_child/last_child/previous_sibling/next_sibling agreement, no node beneath itself, at most one document element / document type): these quantify over the live aliasing graph; only the local steps of the two primitives on elements and attributes are decided',
-        explanation='the local steps that keep child lists and parent links in agreement: XmlElement::insert_by_id and XmlAttribute::insert_by_id either refuse and change nothing (child list, parent links) or leave the value listed exactly once under this parent with its parent link pointing here; XmlElement::delete_by_id removes exactly that child and clears its parent link, and changes nothing for an unknown id',
+        explanation='the local steps that keep child lists and parent links in agreement: XmlElement::insert_by_id, XmlDocument::insert_by_id (with its nested helper add_or_insert) and XmlAttribute::insert_by_id either refuse and change nothing (child list, parent links) or leave the value listed exactly once under this parent with its parent link pointing here; XmlElement::delete_by_id removes exactly that child and clears its parent link, and changes nothing for an unknown id',
     ),
     'C10': dict(
         standin_ops=['ctx.script'],
@@ -181,7 +181,7 @@ MANIFEST_TEXT = {
         technique='contract-based deductive verification (Verus postconditions on the extracted real function over uninterpreted node attributes)',
         design_ref='DESIGN.md §9'),
     'C12': dict(
-        level_text='Proof (Verus, all child lists / ids / item kinds) of the LOCAL steps only: insert_by_id of elements and attributes and delete_by_id of elements keep "listed under a parent" and "parent link points to that parent" in agreement, list an accepted child exactly once, and change nothing when they refuse. The invariant over whole edit histories and the sibling/first/last views are not decided.',
+        level_text='Proof (Verus, all child lists / ids / item kinds) of the LOCAL steps only: insert_by_id of elements, documents and attributes and delete_by_id of elements keep "listed under a parent" and "parent link points to that parent" in agreement, list an accepted child exactly once, and change nothing when they refuse. The invariant over whole edit histories and the sibling/first/last views are not decided.',
         level_note='Trusted: Verus+Z3, extractor, the ghost world model of parent links with remove_from_parent as an assumed callee. Not decided: everything that needs the live graph as a whole.',
         technique='contract-based deductive verification (Verus pre/postconditions with a ghost parent map on extracted real functions)',
         design_ref='DESIGN.md §9'),
